@@ -160,7 +160,7 @@ def decide(prop, a, seed, results, fns, abstract, t0):
     ledger = ledger_all.get(prop, {})
     # development runs against a scratch tree (PYVC_REPO) must never touch the committed evidence
     scratch = os.path.abspath(REPO) != "/repo"
-    EVD = ".scratch/evidence" if scratch else "evidence"
+    EVD = os.environ.get("PYVC_EVD") or (".scratch/evidence" if scratch else "evidence")      # PYVC_EVD: developer runs that must not touch evidence/
     RPD = ".scratch/replays" if scratch else "replays"
     os.makedirs(os.path.join(ROOT, RPD), exist_ok=True)
     os.makedirs(os.path.join(ROOT, EVD), exist_ok=True)
